@@ -550,6 +550,16 @@ func (st *State) applySpec(spec *FuncSpec, sig *types.Signature, args []Value, p
 		st.assumeAll(env.defs)
 		st.assume(t)
 	}
+	// crash obligations: the unit's crash invariant must hold right after every external (syscall) step
+	if us := st.u.spec; us != nil && len(us.CrashInvs) > 0 && spec.Extern && st.frame.parent == nil && st.u.houdini == nil {
+		for _, c := range us.CrashInvs {
+			env := st.newEnv(st.frame, nil)
+			env.post = true
+			t := env.evalBool(c.E)
+			st.assumeAll(env.defs)
+			st.u.addObl(st, "crash", "after "+short+"/"+clauseName(c), pos, t, false)
+		}
+	}
 	// vacuity guard: the assumed postconditions must not contradict the call context
 	if u := st.u; u.houdini == nil {
 		ck := spec.Key
@@ -1095,6 +1105,12 @@ func (e *Engine) instrWrites(in ssa.Instruction, ws *writeSet) {
 		}
 	case *ssa.Send, *ssa.Select, *ssa.MakeChan:
 		ws.heap["CH_closed"] = ArraySort(SInt, SBool)
+		ws.heap["NCS"] = ArraySort(SInt, SInt)
+		ws.heap["NCR"] = ArraySort(SInt, SInt)
+	case *ssa.UnOp:
+		if x.Op == token.ARROW {
+			ws.heap["NCR"] = ArraySort(SInt, SInt)
+		}
 	case *ssa.Call:
 		e.callWrites(&x.Call, ws)
 	case *ssa.Defer:
@@ -1427,7 +1443,7 @@ func (u *Unit) checkFrame(st *State, pos token.Pos) {
 	}
 	sort.Strings(names)
 	for _, n := range names {
-		if allowedAll[n] || n == "RO" || strings.HasPrefix(n, "NC_") || strings.HasPrefix(n, "NCF_") {
+		if allowedAll[n] || n == "RO" || strings.HasPrefix(n, "NC_") || strings.HasPrefix(n, "NCF_") || n == "NCR" || n == "NCS" || strings.HasPrefix(n, "CH_") {
 			continue
 		}
 		sortN := e.heapSorts[n]
